@@ -255,18 +255,30 @@ Theorem C16_kp_manager_balance_sound :
 Proof. exact K_sound_manager_balance. Qed.
 Print Assumptions C16_kp_manager_balance_sound.
 
-(* Not proved (statement kept): shared outcome on the observations alone.
-   joins c j d := c = pre ++ (EReq j a k, o) :: post /\ In j (o_joined (canon o)) /\
-                  ((dial_in pre d a /\ ~ ended_in pre d) \/ In (d, a) (o_dials (canon o)))
-   Theorem C16_kp_share_outcome_sound :
-     forall c, kaccepts c = true -> forall i j d ri rj,
-     joins c i d -> joins c j d -> returned_in c i ri -> returned_in c j rj -> ri = rj.
-   Needs one more invariant of the specification machine (a returned value equals
-   [kexpect] of the thread's source, which is stable once decided).  Likewise the
-   converse "closed AT the last release" (no leak) is not stated declaratively.
-   Both remain enforced by K_P as executable specification and proved for the
-   model (C16_share_outcome, C16_last_release_closes, C16_closed_iff_no_holder). *)
+(** shared outcome: two requests that joined one Dial call -- they reached the
+    join point while it was in flight (observed, not ended), or are the request
+    it was made for -- and both returned, returned the same thing
+    (LTS: C16_share_outcome, C16_request_joins_pending_attempt) *)
+Theorem C16_kp_share_outcome_sound :
+  forall c, kaccepts c = true ->
+  forall i j d ri rj, joins c i d -> joins c j d ->
+  returned_in c i ri -> returned_in c j rj -> ri = rj.
+Proof. exact K_sound_share_outcome. Qed.
+Print Assumptions C16_kp_share_outcome_sound.
 
+(** closed AT the last release (no leak): a thread handed h releases it for the
+    first time, and every other thread entitled to h -- it asked for the address
+    h was dialled for and reached the join point, returned or not -- already has
+    an applied release: then h is shown closed after that very release
+    (LTS: C16_last_release_closes, C16_closed_iff_no_holder) *)
+Theorem C16_kp_closed_at_last_release_sound :
+  forall c, kaccepts c = true ->
+  forall pre i o post h, c = pre ++ (ERelease i, o) :: post ->
+  returned_in pre i (OConn h) -> ~ released_in pre i ->
+  (forall j, entitled pre j h -> j = i \/ released_in pre j) ->
+  In h (o_closed (canon o)).
+Proof. exact K_sound_closed_at_last_release. Qed.
+Print Assumptions C16_kp_closed_at_last_release_sound.
 (** * Liveness under fairness (Conn/ConnLive.v)
 
     Runs are infinite sequences [rn : nat -> state] from [init] with an
